@@ -60,10 +60,15 @@ Proof.
   apply in_rev. exact H.
 Qed.
 
-Lemma node_attr_in d k n l : node_attr d k n = Some l -> In l (sflat d).
+Lemma node_attr_inv d k n l : node_attr d k n = Some l ->
+  exists nm, attr_link k (s_attrs n) = Some nm /\ lookup d nm = Some l.
 Proof.
-  unfold node_attr. destruct (attr_link k (s_attrs n)); [|discriminate]. apply lookup_in.
+  unfold node_attr. destruct (G_NODEATTR_FUNCIRI && is_flist k (s_attrs n)); [discriminate|].
+  destruct (attr_link k (s_attrs n)) as [nm|]; [|discriminate]. intro H. exists nm. split; [reflexivity|exact H].
 Qed.
+
+Lemma node_attr_in d k n l : node_attr d k n = Some l -> In l (sflat d).
+Proof. intro H. destruct (node_attr_inv _ _ _ _ H) as (nm & _ & Hl). eapply lookup_in, Hl. Qed.
 
 Lemma mem_nat_false n l : mem_nat n l = false -> ~ In n l.
 Proof.
@@ -133,13 +138,20 @@ Proof.
   destruct (group_empty n items && negb hf); exact H.
 Qed.
 
+Lemma flist_conv_good es bbox : forall got inv c, LP c -> good (flist_conv d follow es st bbox got inv c).
+Proof.
+  induction es as [|[u|] r IH]; intros got inv c H; cbn [flist_conv]; [exact H| |apply IH, H].
+  destruct (lookup d u) as [l|] eqn:E; [|apply IH, H].
+  apply good_bind; [apply Hf; [eapply lookup_in; exact E|exact H]|].
+  intros ok c' H'. destruct ok; apply IH, H'.
+Qed.
+
 Lemma g_filter_good n items hc hm c : LP c -> good (g_filter d follow n st items hc hm c).
 Proof.
   intro H. unfold g_filter. destruct (st_clip st); [apply g_finish_good, H|].
-  destruct (attr_get AFilter (s_attrs n)) as [[u|]|]; try (apply g_finish_good, H).
-  destruct (lookup d u) as [l|] eqn:E; [|exact H].
-  apply good_bind; [apply Hf; [eapply lookup_in; exact E|exact H]|].
-  intros ok c' H'. destruct ok; [apply g_finish_good, H'|exact H'].
+  destruct (negb (existsb is_some (flist (s_attrs n)))); [apply g_finish_good, H|].
+  apply good_bind; [apply flist_conv_good, H|].
+  intros r c' H'. destruct (if G_FLIST_DROP_RULE then negb (fst r) && snd r else snd r); [exact H'|apply g_finish_good, H'].
 Qed.
 
 Lemma g_mask_good n items hc c : LP c -> good (g_mask d follow n st items hc c).
@@ -468,7 +480,7 @@ Proof.
   intro Hne. induction a as [|[k0 v] r IH]; [reflexivity|].
   cbn [attrs_set_none]. destruct (akey_eqb k k0) eqn:E; cbn [attr_get].
   - apply akey_eqb_eq in E. subst k0.
-    destruct (akey_eqb k' k) eqn:E2; [apply akey_eqb_eq in E2; congruence|reflexivity].
+    destruct (akey_eqb k' k) eqn:E2; [apply akey_eqb_eq in E2; congruence|exact IH].
   - destruct (akey_eqb k' k0); [reflexivity|exact IH].
 Qed.
 
@@ -581,7 +593,7 @@ Proof.
 Qed.
 
 Lemma node_attr_has_link d k n l : node_attr d k n = Some l -> has_link k n = true.
-Proof. unfold node_attr, has_link. destruct (attr_link k (s_attrs n)); [reflexivity|discriminate]. Qed.
+Proof. intro H. destruct (node_attr_inv _ _ _ _ H) as (nm & Hn & _). unfold has_link. rewrite Hn. reflexivity. Qed.
 
 Lemma find_link_sound e k : finder_sound (find_recursive_link e k) k.
 Proof.
@@ -693,7 +705,16 @@ Proof. destruct x; repeat split. Qed.
 Definition plain_state (st : cstate) : Prop := st_clip st = false /\ st_markers st = [].
 
 Lemma node_attr_no_links d k n : no_links (s_attrs n) -> node_attr d k n = None.
-Proof. intro H. unfold node_attr. rewrite no_links_link; [reflexivity|exact H]. Qed.
+Proof.
+  intro H. unfold node_attr. destruct (G_NODEATTR_FUNCIRI && is_flist k (s_attrs n)); [reflexivity|].
+  rewrite no_links_link; [reflexivity|exact H].
+Qed.
+
+Lemma no_links_flist a : no_links a -> existsb is_some (flist a) = false.
+Proof.
+  unfold flist. induction 1 as [|[k' v'] r Hh Hr IH]; [reflexivity|]. cbn [filter].
+  destruct (is_filter_key (k', v')); [|exact IH]. cbn [map snd existsb]. cbn [snd] in Hh. subst v'. exact IH.
+Qed.
 
 Lemma group_tail_plain d follow n st items c :
   no_links (s_attrs n) -> nonempty items = true ->
@@ -703,9 +724,7 @@ Proof.
   intros Hn Hne. unfold group_tail, group_empty. rewrite Hne. cbn [negb andb].
   rewrite (node_attr_no_links d AClip n Hn). unfold g_mask. rewrite (node_attr_no_links d AMask n Hn).
   assert (Hfil : g_filter d follow n st items false false c = g_finish n st items false false false c).
-  { unfold g_filter. destruct (st_clip st); [reflexivity|].
-    destruct (attr_get AFilter (s_attrs n)) as [[u|]|] eqn:E; try reflexivity.
-    pose proof (no_links_get _ _ _ Hn E). discriminate. }
+  { unfold g_filter. destruct (st_clip st); [reflexivity|]. rewrite (no_links_flist _ Hn). reflexivity. }
   destruct (st_clip st); rewrite Hfil; unfold g_finish, group_empty; rewrite Hne; cbn [negb andb orb];
     destruct (is_g_or_use n); reflexivity.
 Qed.
@@ -984,11 +1003,26 @@ Proof.
   rewrite set_none_attrs. destruct (Nat.eqb (s_id n) id); [apply attr_link_set_none|exact (fun H => H)].
 Qed.
 
+Lemma flist_set_none_length k a : length (flist (attrs_set_none k a)) = length (flist a).
+Proof.
+  unfold flist. rewrite !map_length. induction a as [|[k' v] r IH]; [reflexivity|]. cbn [attrs_set_none].
+  assert (Hk : forall v1 v2, is_filter_key (k', v1) = is_filter_key (k', v2)) by reflexivity.
+  destruct (akey_eqb k k'); cbn [filter]; rewrite ?(Hk None v); destruct (is_filter_key (k', v));
+    cbn [length]; try (apply (f_equal S)); exact IH.
+Qed.
+
+Lemma is_flist_set_none id k0 k n : is_flist k (s_attrs (set_none id k0 n)) = is_flist k (s_attrs n).
+Proof.
+  rewrite set_none_attrs. destruct (Nat.eqb (s_id n) id); [|reflexivity].
+  unfold is_flist. rewrite flist_set_none_length. reflexivity.
+Qed.
+
 Lemma node_attr_set_none id k0 d k n l' :
   node_attr (set_none id k0 d) k (set_none id k0 n) = Some l' ->
   exists l, l' = set_none id k0 l /\ node_attr d k n = Some l.
 Proof.
-  unfold node_attr. destruct (attr_link k (s_attrs (set_none id k0 n))) as [nm|] eqn:E; [|discriminate].
+  unfold node_attr. rewrite is_flist_set_none. destruct (G_NODEATTR_FUNCIRI && is_flist k (s_attrs n)); [discriminate|].
+  destruct (attr_link k (s_attrs (set_none id k0 n))) as [nm|] eqn:E; [|discriminate].
   apply attr_link_set_none_node in E. rewrite E, lookup_set_none.
   destruct (lookup d nm) as [l|]; [|discriminate]. intros [= <-]. exists l. split; reflexivity.
 Qed.
